@@ -19,6 +19,12 @@ namespace Ft
 section
 variable {κ π β : Type} [LT κ] [DecidableRel (α := κ) (· < ·)] [DecidableEq κ]
 
+/-- `getPositionRef(c)`: create the element with payload `mk` if it is missing -/
+def insertIfMissing (mk : π) (f : Fib κ π) (c : κ) : Fib κ π :=
+  match posLookup f c with
+  | some _ => f
+  | none => insertAt f c mk
+
 /-- one iteration's search, exactly as coded: returns (a_pos after the bisect, index found by
     getPayload's own search) -/
 def popSearch (z : Fib κ π) (apos : Nat) (bc : κ) : Nat × Nat :=
@@ -118,16 +124,24 @@ namespace Ft
 section
 variable {κ ν : Type} [LT κ] [DecidableRel (α := κ) (· < ·)] [DecidableEq κ] [DecidableEq ν]
 
+/-- what the loop body does with an offered *sub-fiber*: run the nested populate loop over it,
+    leave it alone, or only touch it (`getPositionRef(c')`: create an element below it without
+    writing a leaf value) -/
+inductive Inner (κ : Type) | recurse | skip | touch (c : κ)
+
 /-- nested populate loops, one per rank, with a leaf body `leafF point current source` and an
-    optional `skip` of the nested loop at an interior point -/
-def popNest (dflt : ν) (leafF : List κ → ν → ν → ν) (skip : List κ → Bool) :
+    `inner` decision at every interior point -/
+def popNest (dflt : ν) (leafF : List κ → ν → ν → ν) (inner : List κ → Inner κ) :
     (d : Nat) → List κ → Tree κ ν (d + 1) → Tree κ ν (d + 1) → Tree κ ν (d + 1)
   | 0, pre, z, a =>
     (populate dflt 0 (fun c (cur : Tree κ ν 0) (av : Tree κ ν 0) =>
       (leafF (pre ++ [c]) (show ν from cur) (show ν from av) : ν)) z (present dflt 0 a)).1
   | d + 1, pre, z, a =>
     (populate dflt (d + 1) (fun c (cur : Tree κ ν (d + 1)) (av : Tree κ ν (d + 1)) =>
-      if skip (pre ++ [c]) then cur else popNest dflt leafF skip d (pre ++ [c]) cur av) z
+      match inner (pre ++ [c]) with
+      | .skip => cur
+      | .touch c' => insertIfMissing (defaultTree dflt d) (show List (κ × Tree κ ν d) from cur) c'
+      | .recurse => popNest dflt leafF inner d (pre ++ [c]) cur av) z
       (present dflt (d + 1) a)).1
 
 end
